@@ -377,8 +377,8 @@ PROPERTIES["C18"] = dict(
             "AnnotationDelta::gene/::disease wrappers (id.to_string() -> core::fmt); comparison with the binary round trip; dangling replacement targets (D8)",
     assumptions=["term groups are valid (sorted) groups"],
 )
-H("C18", "comparison", "c18_annotation_delta_u2", tq=900, mem="medium", bounds="universe of 2 ids, names in {a,b}")
-H("C18", "comparison", "c18_annotation_delta_swap", tq=900, mem="medium", bounds="universe of 2 ids, different sets, swapped arguments")
+H("C18", "comparison", "c18_annotation_delta_u2", tq=1800, mem="medium", bounds="universe of 2 ids, names in {a,b}")
+H("C18", "comparison", "c18_annotation_delta_swap", tq=1800, mem="medium", bounds="universe of 2 ids, different sets, swapped arguments")
 H("C18", "comparison", "c18_annotation_delta_u3", tier="thorough", mem="heavy", tt=3600, deep=True, bounds="universe of 3 ids, names in {a,b}")
 H("C18", "comparison", "c18_twin_must_fail", expect="fail")
 
